@@ -40,6 +40,10 @@ func runC01(c *eng.Ctx) {
 	ruleAppendsWakeParkedCommittedReaders(c)
 	c.Rule("R03.4", "K1")
 	ruleReplacedWatermarkSegmentReinitialises(c)
+	c.Rule("R01.14", "K5")
+	ruleListIsFetchedAfterTheWait(c)
+	c.Rule("R01.8", "K5")
+	ruleNoEntryAtOrBelowIsMinusOne(c)
 	c.Rule("R01.1", "K5")
 	ruleOffsetIdentity(c)
 	c.Floor(8)
